@@ -1,9 +1,9 @@
 #!/bin/bash
 # usage: tools/seedsweep.sh "C01 C02 ..." "1 2 3"   -> runs quick tier for each property and seed, prints one line each
-cd /verif
+cd "$(dirname "$0")/.."
 for p in $1; do for s in $2; do
   out=$(VERIF_SEED=$s VERIF_TIER=quick timeout 1500 /venv/bin/python -m checks.run $p 2>&1); rc=$?
   echo "$p seed=$s rc=$rc $(echo "$out" | grep -E "scenarios=" | sed 's/.*scenarios=/scenarios=/' | cut -c1-110)"
   echo "$out" | grep -E "^\[$p\] violation|HARNESS" | cut -c1-400 | head -4
 done; done
-rm -f /verif/replays/*.json
+rm -f replays/*.json
